@@ -110,6 +110,12 @@ mixed do_op (string s) {
     VL (VNOW + " r dest " + oid + " " + w[1]);
     break;
   }
+  case "destco":  // destco <oid>: destruct itself, then try to schedule: f_call_out must refuse (returns 0)
+    destruct (this_object ());
+    r = call_out ("co0", 1, "Z");
+    if (r) VL ("scheduled-by-destructed " + oid + " " + r);
+    VL (VNOW + " r dest " + oid + " " + w[1]);
+    break;
   case "reload":  // remove_all_call_out (this_object ()) + variable reset + create ()
     reload_object (this_object ());
     VL (VNOW + " r reload " + oid);
